@@ -234,6 +234,14 @@ OUTSIDE = [
 ]
 
 
+# programs for the FRONT-END checks only (C01 L3 / layer T, C17, C18): not part of the synthesiser families, whose findings are keyed by instance
+FRONT_ONLY = [
+    # variables named like the machinery's own symbols
+    "def p(a: bool, b: bool) -> bool:\n\t_retq = a and b\n\treturn _retq ^ a",
+    "def p(x: Qint[2], y: bool) -> Qint[2]:\n\t_retx = x + 1\n\tp_x = _retx + 1\n\treturn p_x if y else _retx",
+    "def p(_retx: bool, x0: bool) -> Tuple[bool, bool]:\n\tx1 = _retx ^ x0\n\treturn (x1 and x0, x1 or _retx)",
+]
+
 class Gen:
     """typed program generator over the documented subset (bounded: depth / widths stated by the caller)"""
 
